@@ -203,6 +203,21 @@ int cmd_games(const Args& a)
         int policy = policy_opt >= 0 ? policy_opt : int(rng() % 7);
         std::map<std::string, int> seen;
         Move last_own[2] = {NO_MOVE, NO_MOVE};
+        // optional prefix: a long game played first (operations only, no observations), so that the observed part of the
+        // game lies beyond a given ply count (history capacity boundaries)
+        if (a.has("prefix"))
+        {
+            std::vector<std::string> pm = read_lines(a.s("prefix"));
+            size_t use = pm.size() - (pm.size() > 20 ? size_t(rng() % 20) : 0);
+            for (size_t i = 0; i < use; ++i)
+            {
+                ++seen[fen4(p)];
+                Move m = p.parse_uci(pm[i]);
+                out.put("{\"e\":\"do\",\"m\":" + jstr(pm[i]) + "}");
+                p.do_move(m);
+                out.put("{\"e\":\"commit\"}");
+            }
+        }
         for (int ply = 0; ply <= maxply; ++ply)
         {
             MoveVec mv;
@@ -326,7 +341,8 @@ int cmd_replay_legal(const Args& a)
     init_engine();
     std::ifstream in(a.s("in"));
     std::string line;
-    long n = 0, bad = 0, nontrivial = 0, napply = 0;
+    long n = 0, bad = 0, nontrivial = 0, napply = 0, nnested = 0;
+    const bool nested = a.i("nested", 0) != 0;
     FILE* out = fopen(a.s("out", "/dev/stdout").c_str(), "w");
     while (std::getline(in, line))
     {
@@ -353,6 +369,58 @@ int cmd_replay_legal(const Args& a)
             fprintf(out, "{\"prop\":\"%s\",\"kind\":\"%s\",\"fen\":%s,\"detail\":{\"missing\":[%s],\"extra\":[%s],\"duplicate\":%s,\"engine_fen\":%s}}\n",
                     fenbad ? "C16" : "C01", fenbad ? "fen_load_print" : (!missing.empty() ? "missing" : (!extra.empty() ? "extra" : "duplicate")),
                     jstr(fen).c_str(), missing.c_str(), extra.c_str(), jbool(dup).c_str(), jstr(p.fen()).c_str());
+        }
+        // C03, nested: for every legal move, every legal reply is made and unmade, then the move is unmade; the full
+        // observation (FEN, keys, piece lists, bitboards, generated move set) must be what it was
+        if (nested)
+        {
+            auto observe = [](Position& q) {
+                MoveVec v;
+                v.gen(q);
+                std::vector<std::string> ms;
+                for (int i = 0; i < v.n; ++i) ms.push_back(q.uci(v.list[i]));
+                std::sort(ms.begin(), ms.end());
+                std::string o = q.fen() + "|" + hex64(q.hash()) + "|" + hex64(q.pawn_hash()) + "|" + piece_list_picture(q) + "|" + bitboard_picture(q) + "|";
+                for (auto& m : ms) o += m + ",";
+                return o;
+            };
+            std::string before = observe(p);
+            for (int i = 0; i < mv.n; ++i)
+            {
+                Move m = mv.list[i];
+                std::string um = p.uci(m);
+                MoveInfo mi = p.do_move(m);
+                MoveVec rv;
+                rv.gen(p);
+                std::string mid = observe(p);
+                for (int j = 0; j < rv.n; ++j)
+                {
+                    Move r = rv.list[j];
+                    MoveInfo ri = p.do_move(r);
+                    p.undo_move(r, ri);
+                    nnested++;
+                }
+                {
+                    // observed once after all replies were made and unmade (one observation per first-level move)
+                    std::string now = observe(p);
+                    if (now != mid)
+                    {
+                        bad++;
+                        fprintf(out, "{\"prop\":\"C03\",\"kind\":\"not_restored\",\"fen\":%s,\"detail\":{\"line\":[%s,\"<every reply>\"],\"level\":2,\"before\":%s,\"after\":%s}}\n",
+                                jstr(fen).c_str(), jstr(um).c_str(), jstr(mid).c_str(), jstr(now).c_str());
+                    }
+                }
+                p.undo_move(m, mi);
+                std::string now = observe(p);
+                if (now != before)
+                {
+                    bad++;
+                    fprintf(out, "{\"prop\":\"C03\",\"kind\":\"not_restored\",\"fen\":%s,\"detail\":{\"line\":[%s],\"level\":1,\"before\":%s,\"after\":%s}}\n",
+                            jstr(fen).c_str(), jstr(um).c_str(), jstr(before).c_str(), jstr(now).c_str());
+                    p = Position(fen);
+                    mv.gen(p);
+                }
+            }
         }
         // per-move expectations computed by the spec: [uci, fen after, capture, quiet, gives check]
         std::string ap = jget(line, "apply");
@@ -405,6 +473,17 @@ int cmd_replay_legal(const Args& a)
                             jstr(fen).c_str(), jstr(strs[0]).c_str(), jbool(castling(m) != NO_CASTLING).c_str(), (int)promotion(m),
                             jbool(cap).c_str(), jbool(quiet).c_str(), jbool(chk).c_str(), jbool(wcap).c_str(), jbool(wquiet).c_str(), jbool(wchk).c_str());
                 }
+                {
+                    // C02 through the text path (what `position ... moves` does): parse the move text, play it on a copy
+                    Position q(fen);
+                    q.do_move(q.parse_uci(strs[0]));
+                    if (q.fen() != strs[1])
+                    {
+                        bad++;
+                        fprintf(out, "{\"prop\":\"C02\",\"kind\":\"fen_via_move_text\",\"fen\":%s,\"detail\":{\"m\":%s,\"castle\":%s,\"engine\":%s,\"spec\":%s}}\n",
+                                jstr(fen).c_str(), jstr(strs[0]).c_str(), jbool(castling(m) != NO_CASTLING).c_str(), jstr(q.fen()).c_str(), jstr(strs[1]).c_str());
+                    }
+                }
                 std::string before = p.fen();
                 uint64_t k0 = p.hash(), pk0 = p.pawn_hash();
                 MoveInfo mi = p.do_move(m);
@@ -426,7 +505,7 @@ int cmd_replay_legal(const Args& a)
             }
         }
     }
-    fprintf(out, "{\"summary\":true,\"positions\":%ld,\"mismatches\":%ld,\"nontrivial\":%ld,\"applied\":%ld}\n", n, bad, nontrivial, napply);
+    fprintf(out, "{\"summary\":true,\"positions\":%ld,\"mismatches\":%ld,\"nontrivial\":%ld,\"applied\":%ld,\"nested\":%ld}\n", n, bad, nontrivial, napply, nnested);
     fclose(out);
     return 0;
 }
